@@ -146,6 +146,52 @@ pub fn fuzz_stage(ctx: &Ctx, build_dir: &Path, budget: Duration) -> (u64, Vec<Va
     (violations, fuzz_reports, harness_error)
 }
 
+/// Thorough tier of C08 / C12 / C13: a few hundred small generated cases under
+/// Miri with tree borrows (stricter than ASan: uninitialised reads, provenance).
+/// Returns (violations, report, harness_error).
+pub fn miri_stage(ctx: &Ctx, build_dir: &Path) -> (u64, Option<Value>, Option<String>) {
+    if ctx.tier.name() != "thorough" || !matches!(ctx.id.as_str(), "C08" | "C12" | "C13") {
+        return (0, None, None);
+    }
+    let harness = ctx.verif_dir.join("harness");
+    let count = std::env::var("VERIF_MIRI_CASES").ok().and_then(|s| s.parse::<u64>().ok()).unwrap_or(300);
+    let mut cmd = Command::new("cargo");
+    cmd.current_dir(&harness)
+        .args(["+nightly", "miri", "run", "-q", "-p", "mlv", "--bin", "mlv-miri", "--"])
+        .args([ctx.id.as_str(), &count.to_string(), &ctx.seed.to_string()])
+        .env("MIRIFLAGS", "-Zmiri-tree-borrows -Zmiri-disable-isolation")
+        .env("CARGO_TARGET_DIR", build_dir.join("miri"))
+        .env("CARGO_NET_OFFLINE", "true")
+        .stdin(Stdio::null())
+        .stdout(Stdio::piped())
+        .stderr(Stdio::piped());
+    let start = Instant::now();
+    let out = match cmd.output() {
+        Ok(o) => o,
+        Err(e) => return (0, None, Some(format!("cannot run Miri: {e}"))),
+    };
+    let stdout = String::from_utf8_lossy(&out.stdout).to_string();
+    let stderr = String::from_utf8_lossy(&out.stderr).to_string();
+    let last_case = stdout.lines().filter(|l| l.starts_with("MIRI-CASE")).last().unwrap_or("").to_string();
+    let report = json!({"engine": "Miri (tree borrows)", "cases": count, "wall_s": start.elapsed().as_secs_f64(), "ok": out.status.success(), "last_case": last_case});
+    if out.status.success() && stdout.contains("MIRI-OK") {
+        return (0, Some(report), None);
+    }
+    if stderr.contains("Undefined Behavior") || stdout.contains("MIRI-VIOLATION") {
+        let idx = last_case.split_whitespace().nth(2).unwrap_or("0").to_string();
+        let path = ctx.verif_dir.join("replays").join(format!("{}-miri-{}-{}.json", ctx.id, ctx.seed, idx));
+        std::fs::create_dir_all(ctx.verif_dir.join("replays")).ok();
+        let detail: String = stderr.lines().filter(|l| l.contains("Undefined Behavior") || l.contains("-->") || l.contains("error")).take(8).collect::<Vec<_>>().join(" | ");
+        let doc = json!({"property": ctx.id, "message": format!("Miri reported undefined behaviour: {detail}"),
+                         "case": {"kind": "miri", "id": ctx.id, "seed": ctx.seed, "index": idx, "detail": detail}});
+        let _ = std::fs::write(&path, serde_json::to_string_pretty(&doc).unwrap());
+        eprintln!("miri: {detail}");
+        println!("VIOLATION property={} replay={}", ctx.id, path.display());
+        return (1, Some(report), None);
+    }
+    (0, Some(report), Some(format!("Miri run was inconclusive: {}", stderr.lines().last().unwrap_or(""))))
+}
+
 /// For properties that are not process-supervised: run the registered fuzz
 /// campaigns after the in-process check and merge them into the evidence file.
 pub fn fuzz_poststep(ctx: &Ctx, code: i32) -> i32 {
@@ -257,6 +303,11 @@ pub fn run(ctx: &Ctx) -> i32 {
     if let Some(e) = ferr {
         harness_error.get_or_insert(e);
     }
+    let (mv, miri_report, merr) = miri_stage(ctx, &build_dir);
+    violations += mv;
+    if let Some(e) = merr {
+        harness_error.get_or_insert(e);
+    }
     if violations == 0 {
         if let Some(e) = harness_error {
             eprintln!("HARNESS-ERROR property={} {}", ctx.id, e);
@@ -295,6 +346,9 @@ pub fn run(ctx: &Ctx) -> i32 {
     coverage.insert("distinct_nontrivial".into(), json!(distinct));
     coverage.insert("builds".into(), Value::Object(builds));
     coverage.insert("fuzz".into(), json!(fuzz_reports));
+    if let Some(m) = miri_report {
+        coverage.insert("miri".into(), m);
+    }
     coverage.insert(
         "note".into(),
         json!("evaluations = proptest/sweep cases executed in the release build + in the dbgchk build + libFuzzer executions; distinct_nontrivial = the larger of the two builds' measured counts (both builds run the same generated cases; fuzz executions are not counted as distinct)"),
